@@ -61,8 +61,11 @@ func (w *faultWriter) do(p string, viaStr bool) (int, error) {
 	}
 	ev.n = n
 	w.events = append(w.events, ev)
-	return n, errInjected
+	// the error VALUE varies with the write index: io.EOF from a destination is a failure like any other
+	return n, writeErrors[idx%len(writeErrors)]
 }
+
+var writeErrors = []error{errInjected, io.EOF, io.ErrUnexpectedEOF, io.ErrClosedPipe, io.ErrShortWrite, os.ErrDeadlineExceeded}
 
 func (w *faultWriter) Write(p []byte) (int, error) { return w.do(string(p), false) }
 
